@@ -154,8 +154,9 @@ func TestVerifSelfCheckRef(t *testing.T) {
 		}
 		f := c09ref.R255Curve.F
 		p := c09ref.EPt{X: f.FromBig(x, big.NewInt(0)), Y: f.FromBig(y, big.NewInt(0))}
-		if !c09ref.R255Curve.IsIdentity(c09ref.R255Curve.Mul(c09ref.R255L, p)) {
-			t.Fatalf("ristretto255: representative of %s not of order l", h)
+		// the representative lies in 2E, of order 4l
+		if !c09ref.R255Curve.IsIdentity(c09ref.R255Curve.Mul(new(big.Int).Lsh(c09ref.R255L, 2), p)) {
+			t.Fatalf("ristretto255: representative of %s not of order dividing 4l", h)
 		}
 	}
 	bad := []string{
